@@ -67,10 +67,12 @@ def closeSt (w : WSt σ) : WSt σ :=
 
 def ClosePost (c : Cfg) (w : WSt σ) : Except Err (WSt σ) → Prop
   | .ok w1 => ∃ w', Inv c w' ∧ Frame w w' ByteArray.empty ∧ 0 < w'.compressed ∧ w1 = closeSt w' ∧
-      w'.body.size + w'.e.digits + 9 ≤ Gen.lzma_maxCompressed
+      w'.body.size + w'.e.digits + 9 ≤ Gen.lzma_maxCompressed ∧
+      (Gen.lzma_maxCompressed < w'.digits + 4 + Gen.lzma_opLenMargin ∨ w'.look.size = 0)
   | .error e => e = .limit ∧ ¬ 25 ≤ Gen.lzma_opLenMargin
 
-theorem fin_spec (c : Cfg) (w w' : WSt σ) (hi : Inv c w') (hf : Frame w w' ByteArray.empty) (hpos : 0 < w'.compressed) :
+theorem fin_spec (c : Cfg) (w w' : WSt σ) (hi : Inv c w') (hf : Frame w w' ByteArray.empty) (hpos : 0 < w'.compressed)
+    (hwhy : Gen.lzma_maxCompressed < w'.digits + 4 + Gen.lzma_opLenMargin ∨ w'.look.size = 0) :
     ClosePost c w
       (match closeChk w'.body.size 5 w'.e with
        | none => .error .limit
@@ -85,7 +87,7 @@ theorem fin_spec (c : Cfg) (w w' : WSt σ) (hi : Inv c w') (hf : Frame w w' Byte
     exact absurd hcl (by simp)
   | some e' =>
     obtain ⟨rfl, hb⟩ := closeChk_some _ _ _ hi.erest.toInv hcl
-    exact ⟨w', hi, hf, hpos, rfl, hb⟩
+    exact ⟨w', hi, hf, hpos, rfl, hb, hwhy⟩
 
 theorem encClose_spec (c : Cfg) (hc : CfgOk' c) (M : Matcher σ) (hM : MatcherOk' c M) (w : WSt σ)
     (hi : Inv c w) (hw : 0 < w.written) : ClosePost c w (encClose c M w) := by
@@ -103,7 +105,7 @@ theorem encClose_spec (c : Cfg) (hc : CfgOk' c) (M : Matcher σ) (hM : MatcherOk
       rw [ByteArray.size_empty] at hwr
       unfold WSt.written at hwr hw
       omega
-    exact fin_spec c w w' a1 a2 hpos
+    exact fin_spec c w w' a1 a2 hpos (Or.inr (by unfold thr at a3; simp only [if_true] at a3; omega))
   | limit w' =>
     rw [hr] at hcs
     obtain ⟨a1, a2, a3, a4⟩ := hcs
@@ -112,7 +114,7 @@ theorem encClose_spec (c : Cfg) (hc : CfgOk' c) (M : Matcher σ) (hM : MatcherOk
       have := (a1.fresh (by omega)).2
       have := margin_small
       omega
-    exact fin_spec c w w' a1 a2 hpos
+    exact fin_spec c w w' a1 a2 hpos (Or.inl a3)
   | broken w' => rw [hr] at hcs; exact ⟨rfl, hcs⟩
   | bad w' s => rw [hr] at hcs; exact absurd hcs id
 
@@ -510,7 +512,7 @@ theorem flushChunk_spec (c : Cfg) (hc : CfgOk' c) (M : Matcher σ) (hM : Matcher
       exact hcl
     | ok w1 =>
       rw [h1] at hcl
-      obtain ⟨w', hi', hf, hpos, rfl, hb⟩ := hcl
+      obtain ⟨w', hi', hf, hpos, rfl, hb, _⟩ := hcl
       obtain ⟨q, hq, hst⟩ := hi'.cks
       have hct := hi'.ctype
       have hsz := closeSt_body_size w' hi'.erest.toInv hi'.eout
